@@ -350,24 +350,43 @@ def wiring(ctx):
     u = ctx.unit('reduction.Fold.glomit')
     cfg = ctx.cfg(u)
     evs = evaluator_calls(p, u)
-    ok = len(evs) == 1 and is_name(evs[0].args[0], u.params[1]) and norm(evs[0].args[1]) == 'self.subspec'
-    ctx.ob(ok, u, 'the subspec is evaluated on the target first: %s' % [norm(e) for e in evs])
-    if evs:
-        st = stmt_of(evs[0])
-        ctx.ob(isinstance(st, ast.Assign) and is_name(st.targets[0], u.params[1]), u, 'its value is what gets folded')
-        g = [a for a in ancestors(evs[0]) if isinstance(a, ast.If)]
-        ctx.ob(bool(g) and norm(g[0].test) == 'self.subspec is not T', u, 'T means the target itself')
+    from ..util import polarity, exclusive
+    nonexc = lambda lab: lab != 'exc'
+    ens = [cfg.node_containing(e) for e in evs]
+    ok = len(evs) >= 1 and all(is_name(e.args[0], u.params[1]) and norm(e.args[1]) == 'self.subspec' for e in evs) \
+        and not any(a is not b and cfg.find_path(a, {b}, labels=nonexc) is not None for a in ens for b in ens)
+    ctx.ob(ok, u, 'the subspec is evaluated on the target first, once: %s' % [norm(e) for e in evs])
+    guards = [(t, polarity(t.ast, 'self.subspec is not T')) for t in cfg.nodes if t.kind == 'test']
+    guards = [(t, e) for t, e in guards if e]
+    for e, en in zip(evs, ens):
+        st = stmt_of(e)
+        ctx.ob(isinstance(st, ast.Assign) and is_name(st.targets[0], u.params[1]), u, 'its value is what gets folded', node=e)
+        g = [t for t, edge in guards if en in exclusive(cfg, t, edge)]
+        ctx.ob(bool(g), u, 'T means the target itself', node=e)
+    # every consumer of the target comes after that decision
+    cons = [c for c in calls_in(u) if isinstance(c.func, ast.Attribute) and c.func.attr in ('_fold', '_agg') and is_name(c.func.value, u.params[0])]
+    for c in cons:
+        cn = cfg.node_containing(c)
+        okc = False
+        for t, edge in guards:
+            if cfg.dominates(t, cn):
+                evs_here = {n for n in ens if n in exclusive(cfg, t, edge)}
+                okp, _ = cfg.must_pass(t, {cn}, evs_here, labels=nonexc, start_labels=lambda l, e_=edge: l == e_)
+                okc = okc or (bool(evs_here) and okp)
+        ctx.ob(okc, u, 'a subspec other than T is evaluated before %s' % norm(c)[:50], node=c)
     tu = ctx.unit('grouping.target_iter')
     gh = [c for c in calls_in(tu) if isinstance(c.func, ast.Attribute) and c.func.attr == 'get_handler']
     ok = len(gh) == 1 and gh[0].args[0].value == 'iterate' and is_name(gh[0].args[1], tu.params[0])
     ctx.ob(ok, tu, "iteration uses the target's registered 'iterate' handler")
-    r = [n for n in tu.node.body if isinstance(n, ast.Return)]
+    r = [n for n in tu.own_nodes() if isinstance(n, ast.Return)]
     hv = None
     for n in tu.own_nodes():
         if isinstance(n, ast.Assign) and is_name(n.targets[0]) and gh and n.value is gh[0]:
             hv = n.targets[0].id
-    st = [n for n in tu.own_nodes() if isinstance(n, ast.Assign) and isinstance(n.value, ast.Call) and is_name(n.value.func, hv)]
-    ok = len(r) == 1 and len(st) == 1 and is_name(r[0].value, st[0].targets[0].id) and is_name(st[0].value.args[0], tu.params[0])
+    tcfg = ctx.cfg(tu)
+    rv = [deref(tcfg, tcfg.node_of(x), x.value) for x in r if x.value is not None]
+    ok = len(rv) >= 1 and hv is not None and all(isinstance(v, ast.Call) and is_name(v.func, hv) and len(v.args) == 1
+                                                and is_name(v.args[0], tu.params[0]) for v in rv)
     ctx.ob(ok, tu, 'and returns iterate(target) itself (no materialisation)')
     ctx.floor(5)
 
